@@ -135,7 +135,7 @@ Theorem C18_intcom_equivocate_opens : forall (k : int_key) (lambda ti : Z),
   ik_s k = (ik_t k ^ lambda mod ik_n k)%Z ->
   forall ord : Z, (0 < ord)%Z -> (ik_t k ^ ord mod ik_n k = 1)%Z ->
   forall m r m' r' : Z,
-  int_equivocate_ok k ord lambda m r m' r' = true -> int_open k (int_commit k m r) m' r' = true.
+  int_equivocate_ok ord lambda m r m' r' = true -> int_open k (int_commit k m r) m' r' = true.
 Proof. exact int_equivocate_opens. Qed.
 Print Assumptions C18_intcom_equivocate_opens.
 
